@@ -19,7 +19,7 @@ SIM_UNIT = "filter steps"
 BUDGET = {"quick": {"runs": 6000, "wall": 80}, "thorough": {"runs": 60000, "wall": 1500}}
 SHRINK_LISTS = ("ops",)
 PROBES = {"C13": ["prior-correlated", "prior-diagonal", "step>=10", "time-indexed", "ukf:k<0", "ukf:k>=0",
-                  "ukf:default-k", "ukf:k-varies", "ekf:nonlinear", "pf:judged", "pf:low-ess-judged", "pf:far-from-origin", "outlier-measurement", "dims>=4", "spread>=1e4"]}
+                  "ukf:default-k", "ukf:k-varies", "ekf:nonlinear", "QR-per-call", "pf:judged", "pf:low-ess-judged", "pf:far-from-origin", "outlier-measurement", "dims>=4", "spread>=1e4"]}
 TS = float(os.environ.get("PPSIM_TOLSCALE", "1"))
 TOL = 1e-10 * TS
 
@@ -58,7 +58,8 @@ def generate(seed, tier, prop="C13"):
            "spread": r.choice([0, 1, 2, 4]), "diagP": r.random() < 0.3, "rho": r.choice([0.5, 0.9, 1.1]),
            "particles": r.choice([2000, 10000, 40000]), "omega": round(r.uniform(0.1, 1.2), 3),
            "kvary": r.random() < 0.3, "outlier": r.choice([0, 0, 0, 15, 40]),
-           "pf_f32": r.random() < 0.35, "offset": r.choice([0.0, 0.0, 300.0])}
+           "pf_f32": r.random() < 0.35, "offset": r.choice([0.0, 0.0, 300.0]),
+           "qr_at": r.choice(["ctor", "ctor", "call", "call-overrides"])}
     if filt == "PF":
         cfg["rs"] = round(r.uniform(-1, 2), 2); cfg["ps"] = round(r.uniform(-2, 1), 2); cfg["spread"] = r.choice([0, 1])
     ro = rng.stream(seed, "ops")
@@ -145,13 +146,19 @@ def execute(plan, prop, out, tr):
         out.probe("pf:far-from-origin")
     x_est = (x_true + rng.randn(s, ("e0",), (n,), dt) * float(torch.sqrt(torch.diagonal(P)).mean())).to(dt)
     k = _kval(c["kmode"], n)
+    # Q, R at construction, only per call, or per call overriding different ones given at construction
+    qr_at = c.get("qr_at", "ctor")
+    Qc, Rc = (Q, R) if qr_at == "ctor" else (None, None) if qr_at == "call" else (Q * 7.0 + 1.0, R * 0.3 + 2.0)
+    qr_kw = {} if qr_at == "ctor" else {"Q": Q, "R": R}
+    if qr_at != "ctor":
+        out.probe("QR-per-call")
     if filt == "EKF":
-        f = pp.module.EKF(model, Q, R)
+        f = pp.module.EKF(model, Qc, Rc)
     elif filt == "UKF":
-        f = pp.module.UKF(model, Q, R)
+        f = pp.module.UKF(model, Qc, Rc)
         out.probe("ukf:default-k" if k is None else "ukf:k<0" if k < 0 else "ukf:k>=0")
     else:
-        f = pp.module.PF(model, Q, R, particles=c["particles"])
+        f = pp.module.PF(model, Qc, Rc, particles=c["particles"])
     npd = lambda t: t.detach().double().numpy()
     LQ = np.linalg.cholesky(npd(Q)); LR = np.linalg.cholesky(npd(R))
 
@@ -192,9 +199,9 @@ def execute(plan, prop, out, tr):
         args = [t_.clone() for t_ in (x_est, y, u, P)]
         try:
             if filt == "UKF":
-                xn, Pn = f(x_est, y, u, P, t=targ, k=k)
+                xn, Pn = f(x_est, y, u, P, t=targ, k=k, **qr_kw)
             else:
-                xn, Pn = f(x_est, y, u, P, t=targ)
+                xn, Pn = f(x_est, y, u, P, t=targ, **qr_kw)
         except Exception as e:
             raise Violation("C13.raises", "%s step %d raised %s: %s" % (filt, i, type(e).__name__, str(e)[:300]), i,
                             "raises:" + filt)
